@@ -1303,6 +1303,12 @@ impl Connection {
             debug!("ignoring forced key update in illegal state");
             return;
         }
+        if self.side.is_client() && self.spaces[SpaceId::Handshake].crypto.is_some() {
+            // A key update must not be initiated before the handshake is confirmed, which for a
+            // client is when HANDSHAKE_DONE arrives and the Handshake keys are discarded
+            debug!("ignoring forced key update before handshake confirmation");
+            return;
+        }
         if self.prev_crypto.is_some() {
             // We already just updated, or are currently updating, the keys. Concurrent key updates
             // are illegal.
